@@ -365,3 +365,29 @@ func init() {
 		sharedRule{Suffix: "FRESHDEST", Props: []string{"C16"}, Body: func(c *Check) { checkFreshDecodeDest(c, "(*app.appDCS).FetchCascadeNodeConfigurations") }, Doc: "(FRESHDEST) a cascade record is decoded into a variable declared per host"},
 	)
 }
+
+// CACHEKEY: the lock cache is keyed by the full path everywhere (a delete under another key is a no-op and leaves "held").
+func checkLockCacheKey(c *Check) {
+	p := c.p
+	n := 0
+	for _, fn := range p.ModFuncs {
+		if !inFile(p, fn, "internal/dcs/zk.go") {
+			continue
+		}
+		for _, ci := range p.Calls(fn, "(*sync.Map).Load", "(*sync.Map).Store", "(*sync.Map).Delete", "(*sync.Map).LoadOrStore", "(*sync.Map).LoadAndDelete") {
+			recv := p.T(ci.Common().Args[0])
+			if !recv.Contains(func(x *Term) bool { return x.IsField("lockHeld") || (x.Op == "fieldaddr" && afterDot(x.Name) == "lockHeld") }) {
+				continue
+			}
+			n++
+			k := p.T(underIface(ci.Common().Args[1]))
+			okk := p.IsCall(k, "(*dcs.zkDCS).buildFullPath") && len(k.Args) == 2 && k.Args[1].Op == "param"
+			c.Req(okk, p.Name(fn), p.InstrPos(ci), nthKey("cachekey:"+afterDot(p.CalleeNames(ci)[0]), n), "the lock cache is read, written and cleared under the same key, the full path of the lock (a delete under the bare path removes nothing and the next acquire answers 'held' from the cache)", "key is "+k.String())
+		}
+	}
+	c.Req(n >= 5, "internal/dcs/zk.go", "-", "cachekey:sites", "lock cache accesses found", fmt.Sprintf("%d", n))
+}
+
+func init() {
+	sharedRules = append(sharedRules, sharedRule{Suffix: "CACHEKEY", Props: []string{"C03", "C06", "C15"}, Body: checkLockCacheKey, Doc: "(CACHEKEY) every access to the lock cache uses buildFullPath(path) as its key"})
+}
